@@ -183,6 +183,8 @@ func runCheck(repo, prop, tier string, rest []string) int {
 		}
 	}
 	// 3. discharge
+	genS := time.Since(t0).Seconds() - e.loadTime
+	tSolve := time.Now()
 	stats := &DischargeStats{ByBackend: map[string]int{}}
 	knownNames := map[string]bool{}
 	for _, f := range kf.Findings {
@@ -225,6 +227,7 @@ func runCheck(repo, prop, tier string, rest []string) int {
 		}
 	}
 	vac := e.DischargeCanaries(canaries, 3)
+	solveWall := time.Since(tSolve).Seconds()
 	res.canaries = len(canaries)
 	for _, v := range vac {
 		res.vacuous = append(res.vacuous, v.Name)
@@ -376,6 +379,8 @@ func runCheck(repo, prop, tier string, rest []string) int {
 		"samples":                   samples,
 		"load_s":                    e.loadTime,
 		"timeout_s":                 timeout,
+		"vc_generation_s":           genS,
+		"solve_wall_s":              solveWall,
 	}
 	if pcfg.Level == "other" {
 		cov["explanation"] = pcfg.Explanation
